@@ -2,7 +2,10 @@ module rvharness
 
 go 1.19
 
-require github.com/my-cloud/ruthenium v0.0.0
+require (
+	github.com/leprosus/golang-p2p v1.3.11
+	github.com/my-cloud/ruthenium v0.0.0
+)
 
 require (
 	github.com/btcsuite/btcd v0.24.0 // indirect
